@@ -284,3 +284,43 @@ class HarnessBug(Exception):
     """Raised when the harness's own preparation of a step fails (never esutil's doing): engines re-raise it
     instead of judging it, so it ends as HARNESS-ERROR (exit 2), never as a VIOLATION."""
 
+
+def scribble(obj, depth=0):
+    """The caller owns what a call returned and may edit it in place.  Overwrites every array found in `obj`
+    (tuples, lists, dicts, structured arrays) with garbage.  Later answers of the library must not change because of
+    it: this is the generic probe for results that are shared with a cache or with the object's own state."""
+    n = 0
+    if depth > 4:
+        return 0
+    if isinstance(obj, np.ndarray):
+        if not obj.flags.writeable or obj.size == 0:
+            return 0
+        try:
+            if obj.dtype.names:
+                for nm in obj.dtype.names:
+                    n += scribble(obj[nm], depth + 1)
+                return n
+            k = obj.dtype.kind
+            if k == "f" or k == "c":
+                obj[...] = np.nan
+            elif k in "iu":
+                obj[...] = 113
+            elif k == "b":
+                obj[...] = ~obj
+            elif k == "S":
+                obj[...] = b"#"
+            elif k == "U":
+                obj[...] = "#"
+            else:
+                return 0
+            return 1
+        except Exception:
+            return 0
+    if isinstance(obj, (tuple, list)):
+        for x in obj:
+            n += scribble(x, depth + 1)
+    elif isinstance(obj, dict):
+        for x in list(obj.values()):
+            n += scribble(x, depth + 1)
+    return n
+
